@@ -136,6 +136,38 @@ fn body1(c: &Case1, lx: &mut Local) {
                 lx.check(sorted(&vals) == sorted(&h.logical()), "C03/lane-multiset-changed", || format!("{:?} on {:?} step {} left {:?}", c.r, vals, c.step, h.logical()));
                 hash_of(&after)
             });
+            if c.policy.is_none() && n <= 5 {
+                lx.explore(&PivotMode::All, |lx| {
+                // the same call on an N64 lane in which equal elements are not identical (0.0 and -0.0 alternate within a
+                // tie group of rank 1): the very same elements - bit for bit - must still be there
+                    let fv: Vec<noisy_float::types::N64> = c.pat.iter().enumerate().map(|(i, &r)| n64(if r == 1 { if i % 2 == 0 { 0.0 } else { -0.0 } } else { r as f64 - 1.0 })).collect();
+                    let mut hf = Host1::new(&fv, c.step, 2, n64(-99.0));
+                    let _ = guarded(|| {
+                        let mut v = hf.view_mut();
+                        match &c.r {
+                            R1::Partition(p) => {
+                                v.partition_mut(*p);
+                            }
+                            R1::Get(i) => {
+                                v.get_from_sorted_mut(*i);
+                            }
+                            R1::Many(m) => {
+                                let ix: Vec<usize> = (0..n).filter(|i| m >> i & 1 == 1).collect();
+                                v.get_many_from_sorted_mut(&Array1::from(ix));
+                            }
+                            R1::Quantile(qi, _) => {
+                                let _ = v.quantile_mut(n64(QS[*qi as usize]), &Nearest);
+                            }
+                            _ => {
+                                let _ = v.quantiles_mut(&Array1::from(vec![n64(0.9), n64(0.1), n64(0.5)]), &Nearest);
+                            }
+                        }
+                    });
+                    let bits = |v: &[noisy_float::types::N64]| sorted(&v.iter().map(|x| x.raw().to_bits()).collect::<Vec<_>>());
+                    lx.check(bits(&fv) == bits(&hf.logical()), "C03/lane-multiset-changed", || format!("{:?} on the N64 lane {:?} (step {}) left {:?}: not the same elements bit for bit (signed zeros)", c.r, fv, c.step, hf.logical()));
+                    hash_of(&hf.logical().iter().map(|x| x.raw().to_bits()).collect::<Vec<_>>())
+                });
+            }
         }
     }
 }
